@@ -9,6 +9,21 @@ COMMON_T = [
 ]
 
 PROPS = {
+    "C01": {
+        "units": ["ident", "idna", "x509", "storage"],
+        "design_ref": "DESIGN.md section 5 C01",
+        "technique": "Verus function contracts: normalisation label by label, newOrder payload element by element, CSR through a ghost view of the OpenSSL request builder",
+        "text": "Deductive proof that configured DNS identifiers are stored as lower-case A-labels label by label (wildcard label kept) and IP "
+                "identifiers in canonical text form, that the newOrder payload lists exactly those identifiers in order, and that the CSR carries "
+                "exactly the given dNSName/iPAddress entries in one subjectAltName, the configured subject attributes, the public half of the given "
+                "key and a self-signature with the configured digest (none for EdDSA); the key pair handed to the CSR is the one read from / "
+                "written to the key file.",
+        "assumptions": [
+            "T: OpenSSL builds the request its builder calls describe; str::to_lowercase / is_ascii / punycode / IpAddr parsing are uninterpreted functions",
+            "T: HashMap iteration yields every entry once (pairs_of)",
+            "X: how request_certificate wires these together (which list is split into dns/ip, which key is passed) - unit `issue` when built; DER contents as a CA parser sees them",
+        ],
+    },
     "C02": {
         "units": ["storage", "http"],
         "design_ref": "DESIGN.md section 5 C02",
